@@ -524,6 +524,50 @@ def some_payloads(ctx, n, fit=True, **kw):
     return out
 
 
+def pinned_entries(ctx):
+    """the pinned standard definitions (harness/pinned.py DEF_PINS) as builder entries with the current table's
+    field ids; a pinned field that no longer exists makes the entry None"""
+    fid = {}
+    for i, n in enumerate(ctx.b.names):
+        fid.setdefault(n, i)
+    out = []
+    for key in pinned.DEF_PIN_KEYS:
+        num, sub = (int(key), None) if "_" not in key else (4076, int(key[5:]))
+        try:
+            items = pinned.def_pin_items(pinned.def_pin_tree(key), fid)
+        except KeyError:
+            items = None
+        out.append({"key": key, "num": num, "sub": sub, "items": items})
+    return out
+
+
+def pinned_def_cases(ctx, reps):
+    """payloads laid out from the *pinned* definition (field order, counters and conditions as the standards give
+    them): the parser must extract exactly the attributes that layout assigns.  On a tree whose definition is the
+    pinned one these are ordinary layout cases; on a tree where two fields were transposed or a group is counted by
+    another field they are the concrete inputs on which it decodes a standard message wrongly."""
+    cs = []
+    cur = {e["key"]: e for _, e in ctx.entries}
+    for rep in range(reps):
+        for pe in pinned_entries(ctx):
+            if pe["items"] is None or pe["key"] not in cur:
+                cs.append(case("ident " + hx(bytes([pe["num"] >> 4, (pe["num"] & 15) << 4, 0])), "pinned-def-missing:" + pe["key"],
+                               ("equals", {"expected": "the pinned definition of %s names fields the tables no longer have (or the identity has no definition)" % pe["key"]})))
+                continue
+            if rep > 0 and cur[pe["key"]]["items"] == pe["items"] and ctx.rng.random() < 0.5:
+                continue          # unchanged definitions are covered by the ordinary layout cases as well
+            try:
+                r = gens.gen_payload(ctx.b, pe, ctx.rng, fit=True,
+                                     val_mode=ctx.rng.choice(["random", "random", "mixed", "signones"]),
+                                     count_mode=ctx.rng.choice(["one", "small", "small"]))
+            except gens.BuildError:
+                continue
+            exp = expected_attr_str(ctx.b.expected(1))
+            cs.append(case("msg 1 " + hx(r["payload"]), "pinned-def:" + pe["key"],
+                           ("attrs_expected", {"expected": exp, "ident": pe["key"]})))
+    return cs
+
+
 def standard_size_cases(ctx, reps):
     """frames the properties call *valid* are valid by the standards, not merely by the library's own tables:
     for every identity whose size formula is pinned, payloads laid out from the current definition (several
@@ -1799,7 +1843,7 @@ _cases_C10_base = cases_C10
 
 
 def cases_C10(ctx):
-    return _cases_C10_base(ctx) + sibling_cases(ctx)
+    return _cases_C10_base(ctx) + sibling_cases(ctx) + pinned_def_cases(ctx, ctx.n(2, 10))
 
 
 GENERATORS = {k[6:]: v for k, v in list(globals().items()) if k.startswith("cases_C")}
@@ -1815,6 +1859,16 @@ def _with_standard_sizes(gen):
 # properties about *valid frames* in streams: validity is by the standard
 for _pid in ("C01", "C02", "C05", "C17"):
     GENERATORS[_pid] = _with_standard_sizes(GENERATORS[_pid])
+
+
+def _with_pinned_defs(gen):
+    def wrapped(ctx):
+        return gen(ctx) + pinned_def_cases(ctx, ctx.n(1, 6))
+    return wrapped
+
+
+# "every data field decodes to the value its bits encode": the fields of a message are the standards' fields
+GENERATORS["C03"] = _with_pinned_defs(GENERATORS["C03"])
 
 
 def _with_recorded(gen, kind):
